@@ -102,6 +102,11 @@ def run(env, tier, seed, broken=None):
     for e, want in [(NIL, 'nil'), (TRUE, 'true'), (FALSE, 'false'), ('[1, [2, [3, []]], {}]', '[1 [2 [3 []]] map[]]'), ('{b: 1, a: [%s, %s], c: {d: "x"}}' % (NIL, TRUE), 'map[a:[<nil> true] b:1 c:map[d:x]]'),
                     ('[%s, "s", 1.5]' % NIL, '[<nil> s 1.5]'), (LEN, '<native fn len>'), (CLOCK, '<native fn>')]:
         cases.append({'id': 'v%d' % n, 'src': '%s %s;\n' % (PRINT, e), 'want': want}); n += 1
+    # every kind of value inside every kind of container (and nested): built-ins and user functions print by name there too
+    kinds = [NIL, TRUE, '1.5', '"s"', '[]', '[1]', '{}', '{k: 1}', LEN, CLOCK, ABS, MAX, INPUT, KEYS, 'uf', '-0', '2 ** 70']
+    for a in kinds:
+        cases.append({'id': 'v%d' % n, 'src': '%s uf() { }\n%s [%s];\n%s [[%s], %s];\n%s {k: %s};\n%s {k: [%s], j: {i: %s}};\n%s t = [%s, %s];\n%s t;\n%s "" + "x";\n' % (
+            FUN, PRINT, a, PRINT, a, a, PRINT, a, PRINT, a, a, VAR, a, a, PRINT, PRINT)}); n += 1
     mism, ri, rm = diff_runs(env, cases)
     nontriv = set()
     for c in cases:
